@@ -159,11 +159,22 @@ step_hook(int t, const char* at, int runnable)
     fprintf(stepsf, "\n");
 }
 
+static int probing = 0, probe_done = 0;
 static void
 on_hang(const char* kind)
 {
     char b[512];
-    if (draining) {
+    // Probe before anything else: wake the cv sleepers spuriously (always legal). If the writer then gets its region,
+    // it had been asleep although the channel itself grants the request: a lost wake-up (reported by the writer).
+    if (!probe_done && !strcmp(kind, "deadlock") && writer_tid >= 0 && vs_is_blocked_on_cv(writer_tid)) {
+        probe_done = 1;
+        probing = 1;
+        if (vs_spurious_wake_all() > 0)
+            return;
+    }
+    if (draining || stop_after_schedule) {
+        // scripted replays: the scripts are prefixes of behaviours, a writer left waiting for readers that have
+        // finished their script is not a hang
         flush_trace("{\"e\":\"End\"}");
         _exit(0);
     }
@@ -203,6 +214,13 @@ writer(void* arg)
             off = CAP + 1000;
         snprintf(b, sizeof b, "{\"e\":\"WMap\",\"n\":%d,\"off\":%ld,\"t\":%d}", n, off, me);
         emit(cur_seq[me], b);
+        if (probing) {
+            probing = 0;
+            if (q) { // granted only because of the spurious wake-up at the deadlock
+                snprintf(b, sizeof b, "{\"e\":\"LostWakeup\",\"n\":%d,\"t\":%d}", n, me);
+                emit(cur_seq[me], b);
+            }
+        }
         op_done();
         if (!q)
             continue;
@@ -305,18 +323,26 @@ reader(void* arg)
     for (;;) {
         // 's' (stall): after a few reads the reader stops reading until the writer has finished, so the ring fills
         // up and only a refusal can release a blocked writer
-        if (RD[r].policy == 's' && nmaps >= 2)
+        if ((RD[r].policy == 's' || RD[r].policy == 'S') && nmaps >= 2)
             while (!writer_done)
                 vs_wait(&progress_obj, "stalled");
-        nmaps++;
+        if (RD[r].policy == 'H' && nmaps >= 1 + (int)(RD[r].tid % 2))
+            while (!writer_done)
+                vs_wait(&progress_obj, "stalled");
         int done_before = writer_done;
         long c0 = committed;
         len = do_rmap(r, me, &off);
         op_done();
         if (len > 0) {
+            nmaps++; // only reads that delivered data count towards a stalling policy
             int c = (int)len;
-            if (RD[r].policy == 'r')
+            if (RD[r].policy == 'r' || RD[r].policy == 'S' || RD[r].policy == 'H')
                 c = (int)(rr() % (unsigned)(len + 2));
+            if (RD[r].policy == 'H') { // hold the mapping for a while (the writer typically blocks meanwhile)
+                int h = 1 + rr() % 4;
+                for (int i = 0; i < h; i++)
+                    vs_yield("holding");
+            }
             if (RD[r].policy == 'h') {
                 int h = 1 + rr() % 3;
                 for (int i = 0; i < h; i++)
@@ -396,7 +422,7 @@ main(int argc, char** argv)
             if (s && !strcmp(s, "loop")) {
                 RD[r].loop = 1;
                 s = strtok(0, " \t\n");
-                RD[r].policy = s ? s[0] : 'f';
+                RD[r].policy = s ? (!strcmp(s, "pstall") ? 'S' : !strcmp(s, "hpstall") ? 'H' : s[0]) : 'f';
             } else {
                 while ((s = strtok(0, " \t\n")) && RD[r].nops < MAXOPS) {
                     RD[r].ops[RD[r].nops].kind = s[0];
@@ -410,6 +436,14 @@ main(int argc, char** argv)
                 cprog[ncp++] = atoi(s);
         } else if (!strcmp(tok, "stop_after_schedule")) {
             stop_after_schedule = atoi(strtok(0, " \t\n"));
+        } else if (!strcmp(tok, "window")) {
+            // window LABEL INDEX THREAD STEPS
+            static char wl[32];
+            snprintf(wl, sizeof wl, "%s", strtok(0, " \t\n"));
+            cfg.window_label = wl;
+            cfg.window_index = atoi(strtok(0, " \t\n"));
+            cfg.window_thread = atoi(strtok(0, " \t\n"));
+            cfg.window_steps = atoi(strtok(0, " \t\n"));
         } else if (!strcmp(tok, "cdelay")) {
             cdelay = atoi(strtok(0, " \t\n"));
         } else if (!strcmp(tok, "schedule")) {
